@@ -96,9 +96,10 @@ def run(ctx):
     ctx.ev.set("exhaustive", True)
     ctx.ev.set("invariants", INV)
     # 2. vacuity: wrong designs must violate the property
-    bad = [("AgentQueue_bad.cfg", None, ("invariant:RingOK",))]
-    variants = [("nolate", ("invariant:RingOK",)), ("jumpexact", ("invariant:RingOK",)),
-                ("ceil", ("invariant:Rounded", "invariant:NotEarly")), ("roundfirst", ("invariant:Rounded",))]
+    # (several workers: whichever property-level invariant is reached first is reported)
+    anyinv = tuple("invariant:" + x for x in INV)
+    bad = [("AgentQueue_bad.cfg", None, anyinv)]
+    variants = [("nolate", anyinv), ("jumpexact", anyinv), ("ceil", anyinv), ("roundfirst", anyinv)]
     for v, exp in (variants if th else variants[:2]):
         bad.append(("AgentQueue_mc.cfg", v, exp))
     if selftest:
